@@ -35,6 +35,8 @@ structure Cfg where
   app : List (Nat × Nat) := []
   umaps : List (Nat × Nat × Nat × Nat × Bytes × Bytes) := []
   auxv : Option (Nat × Nat × Nat × Nat) := none
+  gregs : List Nat := []
+  fpSeed : Nat := 0
   deriving Repr
 
 def parseCfg (s : String) : Option Cfg := do
@@ -45,6 +47,7 @@ def parseCfg (s : String) : Option Cfg := do
     | ["crash", t, sg, cd, a] =>
       -- the code is printed as i32; negative values never generated
       c := { c with crash := some ⟨← t.toNat?, ← sg.toNat?, ← cd.toNat?, ← a.toNat?⟩ }
+    | ["cg", g, sd] => c := { c with gregs := ← natList g ".", fpSeed := ← sd.toNat? }
     | ["limit", l] => c := { c with limit := some (← l.toNat?) }
     | ["sanitize"] => c := { c with sanitize := true }
     | ["principal", p] => c := { c with principal := some (← p.toNat?) }
